@@ -6,11 +6,16 @@ import "time"
 
 // ---------- helpers used by the generated generators (zz_verif_gen_fill.go) ----------
 
+// vGenWide selects the thorough tier's second shape family: up to 2 elements per collection,
+// values one nesting level shallower (shape A is the quick tier's: 0..1 elements, depth 2).
+var vGenWide bool
+
 func vGenLen(label string, d int) int {
 	if d <= 0 {
 		return 0
 	}
-	if vTier() > 0 {
+	if vGenWide {
+		// thorough, shape B: collections of 0..2 elements (one nesting level less)
 		return vChoose(label+".len", 3)
 	}
 	return vChoose(label+".len", 2)
@@ -139,6 +144,10 @@ func verifHarness_C09_roundTrip() {
 	gen := vGenBodies[b.name]
 	vAssume(gen != nil)
 	depth := 2
+	if vTier() > 0 && vChoose("shapeFamily", 2) == 1 {
+		vGenWide = true
+		depth = 1
+	}
 	m := gen(depth)
 	var ver int16
 	if b.hasVersion {
